@@ -158,6 +158,7 @@ class SolverDenseLDL(LinearSolver):
     """
     def __init__(self, *args, hermitian=None, **kwargs):
         self.hermitian = hermitian
+        self._detect_hermitian = hermitian is None
         super().__init__(*args, **kwargs)
 
     def update(self, A):
@@ -166,7 +167,7 @@ class SolverDenseLDL(LinearSolver):
         matrix :math:`\mathbf{A}` is real-valued, there is no difference between the two.
         The matrix :math:`\mathbf{L}` is lower triangular and :math:`\mathbf{D}` is a diagonal matrix.
         """
-        if self.hermitian is None:
+        if self._detect_hermitian:
             self.hermitian = matrix_is_hermitian(A)
         self.l, self.d, self.p = spla.ldl(A, hermitian=self.hermitian)  # LDL is introduced in Scipy v1.7
         if matrix_is_diagonal(self.d):  # Exact diagonal
